@@ -5,13 +5,25 @@
 //! signal) and in the socket actor's reaction to the done signal let the harness place an update request
 //! (`Endpoint::remove_relay` of an unknown relay -> `ActorMessage::RelayMapChange` -> `re_stun` -> `schedule_run`) at every
 //! position of the finishing run and order the actor's reaction against the end of the run task.
+//! A further gate between the guard release and the done signal lets a second trigger be handled by the actor while
+//! the finished run's done signal is still outstanding ("stale done signal" schedules).
+//!
+//! Second scenario, state level (E1): the real `DirectAddrUpdateState` (schedule_run / try_run / want_update / the
+//! reporter lock / the done channel) is driven by hand through `iroh::verif::c25::StateHarness`; the harness plays the
+//! actor and the run tasks (a started run keeps the reporter guard until the harness lets it finish). Every sequence of
+//! {request(reason), run releases the reporter, run queues its done signal, actor handles a done signal} up to a depth
+//! bound is explored breadth-first with state de-duplication; the oracle is the invariant of the statement.
+use iroh::verif::c25::{Reason, StateHarness, StateHarnessFactory};
 use iroh::{Endpoint, RelayMap, RelayMode, RelayUrl, endpoint::presets};
 use serde::{Deserialize, Serialize};
+use std::collections::HashSet;
+use std::sync::Mutex;
 use std::time::{Duration, Instant};
 use vh_engine::*;
 
 const G_BEFORE_REPORT: &str = "direct_addr.run.before_report";
 const G_BEFORE_DONE: &str = "direct_addr.run.before_done";
+const G_AFTER_RELEASE: &str = "direct_addr.run.after_release";
 const G_AFTER_DONE: &str = "direct_addr.run.after_done";
 const G_ACTOR: &str = "direct_addr.actor.before_try_run";
 
@@ -44,6 +56,20 @@ struct Case {
     /// a second update request at another position (thorough tier)
     #[serde(default)]
     also_at: Option<Pos>,
+    /// stale-done-signal schedules: after the first run A released the reporter and BEFORE it sends its done signal
+    /// (held at the `after_release` gate) the actor handles a second trigger T, which finds the reporter free and
+    /// starts run B at once; A's done signal is then handled while B is in flight.
+    #[serde(default)]
+    trigger: Option<Trig>,
+}
+
+#[derive(Serialize, Deserialize, Clone, Copy, Debug, PartialEq, Eq)]
+enum Trig {
+    /// the update request X (at `request_at` = BeforeReport / AfterReport, remembered while A runs) precedes T
+    AfterRequest,
+    /// X is made after T started run B (remembered while B runs), before the actor handles A's stale done signal;
+    /// `request_at` is ignored
+    BeforeRequest,
 }
 impl Case {
     fn at(&self, p: Pos) -> bool {
@@ -82,6 +108,9 @@ async fn run_schedule(case: Case) -> Result<Verdict, String> {
     for g in [G_BEFORE_REPORT, G_BEFORE_DONE, G_AFTER_DONE, G_ACTOR] {
         seams::arm(g);
     }
+    if case.trigger.is_some() {
+        seams::arm(G_AFTER_RELEASE);
+    }
     let relay: RelayUrl = "https://127.0.0.1:9/".parse().unwrap();
     let unknown: RelayUrl = "https://unknown.invalid./".parse().unwrap();
     let ep = Endpoint::builder(presets::Minimal)
@@ -106,6 +135,48 @@ async fn run_schedule(case: Case) -> Result<Verdict, String> {
     };
     // first run (started by the actor's initial periodic tick) parks before its report
     wait_for("first run to start", || seams::waiting(G_BEFORE_REPORT) >= 1, long).await?;
+    if let Some(trig) = case.trigger {
+        // ---- stale-done-signal schedules: run A, [X], A releases the reporter, T -> run B, [X], A's done signal
+        // is sent and handled while B is in flight (parked before its report), then everything runs freely.
+        let x_first = trig == Trig::AfterRequest;
+        if x_first && case.request_at == Pos::BeforeReport {
+            request(true).await?;
+        }
+        seams::release(G_BEFORE_REPORT);
+        wait_for("first report to finish", || seams::waiting(G_BEFORE_DONE) >= 1, long).await?;
+        if x_first && case.request_at == Pos::AfterReport {
+            request(true).await?;
+        }
+        seams::release(G_BEFORE_DONE);
+        wait_for("first run to release the reporter", || seams::waiting(G_AFTER_RELEASE) >= 1, long).await?;
+        // T: handled by the actor while A's done signal is not yet sent; must find the reporter free
+        let starts_before = count("direct_addr.run.start");
+        request(true).await?;
+        let t_idle = seams::events_snapshot().iter().rev().find(|(l, _)| l == "direct_addr.schedule_run").is_some_and(|(_, d)| d.starts_with("idle"));
+        if t_idle {
+            wait_for("the second trigger's run to start and park", || count("direct_addr.run.start") > starts_before && seams::waiting(G_BEFORE_REPORT) >= 1, long).await?;
+        }
+        // (if T found the reporter still locked it is simply one more request made while A runs: judged as such)
+        if !x_first {
+            request(true).await?; // X: remembered while B is in flight
+        }
+        seams::release(G_AFTER_RELEASE);
+        wait_for("stale done signal sent and seen by the actor", || seams::waiting(G_AFTER_DONE) >= 1 && seams::waiting(G_ACTOR) >= 1, long).await?;
+        match case.order {
+            Order::ActorFirst => {
+                seams::release(G_ACTOR);
+                wait_for("actor reaction", || count("direct_addr.actor.after_try_run") >= 1, long).await?;
+                seams::release(G_AFTER_DONE);
+                wait_for("end of the first run task", || count("direct_addr.run.task_end") >= 1, long).await?;
+            }
+            Order::TaskFirst => {
+                seams::release(G_AFTER_DONE);
+                wait_for("end of the first run task", || count("direct_addr.run.task_end") >= 1, long).await?;
+                seams::release(G_ACTOR);
+                wait_for("actor reaction", || count("direct_addr.actor.after_try_run") >= 1, long).await?;
+            }
+        }
+    } else {
     if case.at(Pos::BeforeReport) {
         request(true).await?;
     }
@@ -145,12 +216,13 @@ async fn run_schedule(case: Case) -> Result<Verdict, String> {
     if case.at(Pos::AfterEverything) {
         request(true).await?;
     }
+    }
     // The scripted part is over: later runs proceed freely (with two requests the second one may legitimately be
     // queued behind the second run and start only when that one is over).
     // The requested update must now start by itself: the only other source of a run is the periodic timer
     // (20..26 s after start / after a stored report); a run it starts is visible as a `Periodic` request and makes
     // the schedule unjudgeable (machinery error), never a pass.
-    for g in [G_BEFORE_REPORT, G_BEFORE_DONE, G_AFTER_DONE, G_ACTOR] {
+    for g in [G_BEFORE_REPORT, G_BEFORE_DONE, G_AFTER_RELEASE, G_AFTER_DONE, G_ACTOR] {
         seams::disarm(g);
         seams::release_all(g);
     }
@@ -195,23 +267,21 @@ async fn run_schedule(case: Case) -> Result<Verdict, String> {
     if periodic > 1 {
         return Err(format!("the periodic re-probe timer fired during the schedule ({elapsed:.1}s): cannot judge"));
     }
+    let placement = match case.trigger {
+        None => format!("{:?}{}", case.request_at, case.also_at.map(|p| format!("+{p:?}")).unwrap_or_default()),
+        Some(Trig::AfterRequest) => format!("{:?}, then a second trigger between reporter release and done signal", case.request_at),
+        Some(Trig::BeforeRequest) => "while the run of a second trigger (handled between reporter release and done signal) is in flight, before the stale done signal is handled".to_string(),
+    };
     if !started && bad.is_none() {
         bad = Some(format!(
-            "update requested at {:?}{} ({:?}) was recorded ({how}) but no run started after the first run finished; trace {trace:?}",
-            case.request_at,
-            case.also_at.map(|p| format!(" and {p:?}")).unwrap_or_default(),
+            "update requested {placement} ({:?}) was recorded ({how}) but no run started after the run in flight finished; trace {trace:?}",
             case.order
         ));
     }
     ep.close().await;
     seams::clear_local();
     Ok(Verdict {
-        class: format!(
-            "request {:?}{} / {:?}: recorded as [{how}]",
-            case.request_at,
-            case.also_at.map(|p| format!("+{p:?}")).unwrap_or_default(),
-            case.order
-        ),
+        class: format!("request {placement} / {:?}: recorded as [{how}]", case.order),
         outcome: if started { "second run started".into() } else { "stranded".into() },
         bad,
         trace,
@@ -246,16 +316,398 @@ fn exec(ctx: &Ctx, case: Case) {
     }
 }
 
+// ---------------------------------------------------------------------------------------------------------------
+// State-level scenario: the real DirectAddrUpdateState driven by hand.
+// ---------------------------------------------------------------------------------------------------------------
+
+/// Update reasons (own serialisable mirror; major = asks for a full report, per the statement's "update").
+#[derive(Serialize, Deserialize, Clone, Copy, Debug, PartialEq, Eq, Hash)]
+enum R {
+    Periodic,
+    PortmapUpdated,
+    LinkChangeMinor,
+    LinkChangeMajor,
+    RelayMapChange,
+}
+impl R {
+    fn major(self) -> bool {
+        matches!(self, R::LinkChangeMajor | R::RelayMapChange)
+    }
+    fn strength(self) -> &'static str {
+        if self.major() { "major" } else { "minor" }
+    }
+    fn to_hook(self) -> Reason {
+        match self {
+            R::Periodic => Reason::Periodic,
+            R::PortmapUpdated => Reason::PortmapUpdated,
+            R::LinkChangeMinor => Reason::LinkChangeMinor,
+            R::LinkChangeMajor => Reason::LinkChangeMajor,
+            R::RelayMapChange => Reason::RelayMapChange,
+        }
+    }
+    fn of_hook(r: Reason) -> R {
+        match r {
+            Reason::Periodic => R::Periodic,
+            Reason::PortmapUpdated => R::PortmapUpdated,
+            Reason::LinkChangeMinor => R::LinkChangeMinor,
+            Reason::LinkChangeMajor => R::LinkChangeMajor,
+            Reason::RelayMapChange => R::RelayMapChange,
+        }
+    }
+    /// a run with reason `self` serves a request with reason `req`
+    fn serves(self, req: R) -> bool {
+        self.major() || !req.major()
+    }
+}
+
+#[derive(Serialize, Deserialize, Clone, Copy, Debug, PartialEq, Eq, Hash)]
+enum Op {
+    /// the actor handles a trigger: schedule_run(reason)
+    Request(R),
+    /// the run in flight releases the net reporter
+    Release,
+    /// a run that released the reporter queues its done signal
+    SendDone,
+    /// the actor takes one done signal and reacts with try_run
+    HandleDone,
+}
+
+/// What the oracle tracks (from the statement only).
+#[derive(Clone, Debug, Default)]
+struct Book {
+    /// the run in flight (started, reporter not yet released)
+    in_flight: Option<R>,
+    /// runs that released the reporter and have not queued their done signal yet
+    released_unsent: u32,
+    /// done signals queued, not yet handled by the actor
+    queued: u32,
+    /// requests made while a run was in flight and not yet served: (index of the op, reason)
+    unserved: Vec<(usize, R)>,
+}
+impl Book {
+    fn quiescent(&self) -> bool {
+        self.in_flight.is_none() && self.released_unsent == 0 && self.queued == 0
+    }
+    fn enabled(&self, reasons: &[R]) -> Vec<Op> {
+        let mut v: Vec<Op> = reasons.iter().map(|r| Op::Request(*r)).collect();
+        if self.in_flight.is_some() {
+            v.push(Op::Release);
+        }
+        if self.released_unsent > 0 {
+            v.push(Op::SendDone);
+        }
+        if self.queued > 0 {
+            v.push(Op::HandleDone);
+        }
+        v
+    }
+    fn unserved_kind(&self) -> &'static str {
+        match (self.unserved.iter().any(|(_, r)| !r.major()), self.unserved.iter().any(|(_, r)| r.major())) {
+            (false, false) => "none",
+            (true, false) => "minor",
+            (false, true) => "major",
+            (true, true) => "minor+major",
+        }
+    }
+}
+
+/// The named deviation "last request wins": a request made while a run is in flight replaces the remembered one
+/// (used only to attribute a violation to the finding `pending-major-overwritten-by-minor`, never as the oracle).
+#[derive(Clone, Debug, Default)]
+struct LastWins {
+    want: Option<R>,
+    in_flight: Option<R>,
+    /// a remembered major request was replaced by a non-major one
+    downgraded: bool,
+    /// the real code has behaved exactly like this model so far
+    matches: bool,
+}
+impl LastWins {
+    fn step(&mut self, op: Op) -> Option<R> {
+        match op {
+            Op::Request(r) => {
+                if self.in_flight.is_none() {
+                    self.in_flight = Some(r);
+                    return Some(r);
+                }
+                if self.want.is_some_and(|w| w.major()) && !r.major() {
+                    self.downgraded = true;
+                }
+                self.want = Some(r);
+                None
+            }
+            Op::Release => {
+                self.in_flight = None;
+                None
+            }
+            Op::SendDone => None,
+            Op::HandleDone => {
+                if self.in_flight.is_none() {
+                    if let Some(w) = self.want.take() {
+                        self.in_flight = Some(w);
+                        return Some(w);
+                    }
+                }
+                None
+            }
+        }
+    }
+}
+
+struct Replayed {
+    book: Book,
+    key: String,
+    /// (finding key, message)
+    violation: Option<(Option<&'static str>, String)>,
+    class: String,
+    outcome: String,
+    trace: Vec<String>,
+}
+
+/// Replays `hist` against a fresh real DirectAddrUpdateState; Err = the history is not executable (machinery).
+fn replay_history(factory: &StateHarnessFactory, hist: &[Op]) -> Result<Replayed, String> {
+    let mut h: StateHarness = factory.fresh();
+    let mut book = Book::default();
+    let mut dev = LastWins { matches: true, ..Default::default() };
+    let mut violation: Option<(Option<&'static str>, String)> = None;
+    let mut trace = Vec::new();
+    let (mut class, mut outcome) = ("empty history".to_string(), "nothing".to_string());
+    for (i, op) in hist.iter().copied().enumerate() {
+        let started_before = h.started().len();
+        let busy_before = book.in_flight;
+        class = format!(
+            "{} | run in flight: {} | finished runs whose done signal is unsent/unhandled: {}/{} | unserved requests: {}",
+            match op {
+                Op::Request(r) => format!("request({})", r.strength()),
+                Op::Release => "run releases the reporter".into(),
+                Op::SendDone => "run queues its done signal".into(),
+                Op::HandleDone => "actor handles a done signal".into(),
+            },
+            busy_before.map(|r| r.strength()).unwrap_or("no"),
+            book.released_unsent,
+            book.queued,
+            book.unserved_kind()
+        );
+        let ok = match op {
+            Op::Request(r) => {
+                h.request(r.to_hook());
+                true
+            }
+            Op::Release => book.in_flight.is_some() && h.release_reporter(),
+            Op::SendDone => book.released_unsent > 0 && h.send_done(),
+            Op::HandleDone => book.queued > 0 && h.handle_done(),
+        };
+        if !ok {
+            return Err(format!("op #{i} {op:?} is not enabled in history {hist:?}"));
+        }
+        match op {
+            Op::Release => {
+                book.in_flight = None;
+                book.released_unsent += 1;
+            }
+            Op::SendDone => {
+                book.released_unsent -= 1;
+                book.queued += 1;
+            }
+            Op::HandleDone => book.queued -= 1,
+            Op::Request(_) => {}
+        }
+        let started: Vec<R> = h.started()[started_before..].iter().map(|r| R::of_hook(*r)).collect();
+        trace.push(format!(
+            "{op:?} -> {}; pending={:?} reporter {}",
+            if started.is_empty() { "no run started".to_string() } else { format!("run started {started:?}") },
+            h.want_update(),
+            if h.reporter_busy() { "locked" } else { "free" }
+        ));
+        // ---- at most one run at a time
+        for s in &started {
+            if let Some(other) = book.in_flight {
+                violation.get_or_insert((None, format!("step {i} {op:?}: a run ({s:?}) started while run {other:?} was still in flight; trace {trace:?}")));
+            }
+            book.in_flight = Some(*s);
+            book.unserved.retain(|(_, req)| !s.serves(*req));
+        }
+        if h.in_flight().len() > 1 {
+            violation.get_or_insert((None, format!("step {i} {op:?}: {} runs in flight; trace {trace:?}", h.in_flight().len())));
+        }
+        // ---- a request made while a run is in flight must be served
+        if let (Op::Request(r), Some(_)) = (op, busy_before) {
+            if started.is_empty() {
+                book.unserved.push((i, r));
+            }
+        }
+        // ---- the deviation model (attribution only)
+        let dev_start = dev.step(op);
+        if dev_start != started.first().copied() || started.len() > 1 || dev.want != h.want_update().map(R::of_hook) {
+            dev.matches = false;
+        }
+        outcome = match started.first() {
+            Some(s) => format!("run started ({})", s.strength()),
+            None => "no run started".to_string(),
+        };
+        if book.quiescent() && !book.unserved.is_empty() && violation.is_none() {
+            let (at, req) = book.unserved[0];
+            let only_major = book.unserved.iter().all(|(_, r)| r.major());
+            let key = (dev.matches && dev.downgraded && only_major).then_some("pending-major-overwritten-by-minor");
+            violation = Some((
+                key,
+                format!(
+                    "the update requested at step {at} ({req:?}, {}) while a run was in flight was never started: after step {i} no run is in flight, every done signal has been handled, and no run at least as strong started after the request; runs started {:?}; trace {trace:?}",
+                    req.strength(),
+                    h.started()
+                ),
+            ));
+        }
+        if violation.is_some() {
+            break;
+        }
+    }
+    let key = format!(
+        "{:?}|{}|{:?}|{}|{}|{}|{}{}",
+        h.want_update(),
+        h.reporter_busy(),
+        book.in_flight,
+        book.released_unsent,
+        book.queued,
+        book.unserved_kind(),
+        dev.matches as u8,
+        dev.downgraded as u8
+    );
+    Ok(Replayed { book, key, violation, class, outcome, trace })
+}
+
+/// Breadth-first exploration of all enabled op sequences up to `depth`, de-duplicated on the reached state
+/// (real: pending update, reporter lock; harness: run in flight, outstanding done signals; oracle: unserved requests).
+fn explore_states(ctx: &Ctx, factory: &StateHarnessFactory, reasons: &[R], depth: usize) {
+    let root = match replay_history(factory, &[]) {
+        Ok(r) => r,
+        Err(e) => machinery_error(&format!("C25 state level: {e}")),
+    };
+    let mut seen: HashSet<String> = HashSet::new();
+    seen.insert(root.key.clone());
+    ctx.add_states(1);
+    let mut frontier: Vec<(Vec<Op>, Book)> = vec![(vec![], root.book)];
+    let mut depth_done = 0;
+    let mut histories = 0u64;
+    for d in 1..=depth {
+        let mut cands: Vec<Vec<Op>> = Vec::new();
+        for (h, book) in &frontier {
+            for op in book.enabled(reasons) {
+                let mut h2 = h.clone();
+                h2.push(op);
+                cands.push(h2);
+            }
+        }
+        if cands.is_empty() {
+            break;
+        }
+        let results: Mutex<Vec<(usize, Result<Replayed, String>)>> = Mutex::new(Vec::with_capacity(cands.len()));
+        let idx: Vec<usize> = (0..cands.len()).collect();
+        par_for_each(&idx, |&i| {
+            let r = quiet_catch(|| replay_history(factory, &cands[i])).unwrap_or_else(|p| Err(format!("panic: {p}")));
+            results.lock().unwrap().push((i, r));
+        });
+        let mut results = results.into_inner().unwrap();
+        results.sort_by_key(|r| r.0);
+        histories += cands.len() as u64;
+        ctx.add_traces(cands.len() as u64);
+        ctx.add_transitions(cands.len() as u64);
+        let mut next = Vec::new();
+        for (i, r) in results {
+            let r = match r {
+                Ok(r) => r,
+                Err(e) => machinery_error(&format!("C25 state level: {e}")),
+            };
+            if let Some((key, what)) = &r.violation {
+                ctx.discrepancy(*key, what, AnyCase::History { history: cands[i].clone() });
+                continue;
+            }
+            ctx.eval(&r.class, &r.outcome);
+            if cands[i].iter().filter(|o| **o == Op::HandleDone).count() >= 2 && r.outcome.starts_with("run started") {
+                ctx.sample("state level: a run started by the reaction to a later done signal", serde_json::json!({"history": cands[i], "trace": r.trace}));
+            }
+            if seen.insert(r.key.clone()) {
+                ctx.add_states(1);
+                next.push((cands[i].clone(), r.book));
+            }
+        }
+        depth_done = d;
+        frontier = next;
+        if frontier.is_empty() {
+            break;
+        }
+    }
+    ctx.bound("state_level_depth", depth);
+    ctx.bound("state_level_depth_completed", depth_done);
+    ctx.bound("state_level_reasons", reasons);
+    ctx.extra("state_level_states", seen.len());
+    ctx.extra("state_level_histories_executed", histories);
+    ctx.extra("state_level_frontier_left_at_bound", frontier.len());
+}
+
+#[derive(Serialize, Deserialize, Clone, Debug)]
+#[serde(untagged)]
+enum AnyCase {
+    History { history: Vec<Op> },
+    Schedule(Case),
+}
+
+fn state_level(ctx: &Ctx, only: Option<&[Op]>) {
+    let rt = tokio::runtime::Builder::new_current_thread().enable_all().build().unwrap();
+    let relay: RelayUrl = "https://127.0.0.1:9/".parse().unwrap();
+    let ep = match rt.block_on(
+        Endpoint::builder(presets::Minimal)
+            .relay_mode(RelayMode::Disabled)
+            .portmapper_config(iroh::endpoint::PortmapperConfig::Disabled)
+            .bind(),
+    ) {
+        Ok(ep) => ep,
+        Err(e) => machinery_error(&format!("C25 state level: bind: {e:?}")),
+    };
+    let factory = {
+        let _g = rt.enter();
+        StateHarnessFactory::new(&ep, RelayMap::from(relay))
+    };
+    match only {
+        Some(hist) => match replay_history(&factory, hist) {
+            Ok(r) => {
+                ctx.add_traces(1);
+                ctx.add_transitions(hist.len() as u64);
+                eprintln!("replayed history: {:#?}", r.trace);
+                match r.violation {
+                    Some((key, what)) => ctx.discrepancy(key, &what, AnyCase::History { history: hist.to_vec() }),
+                    None => ctx.eval(&r.class, &r.outcome),
+                }
+            }
+            Err(e) => machinery_error(&format!("C25 state level replay: {e}")),
+        },
+        None => {
+            let reasons: Vec<R> = ctx.pick(
+                vec![R::LinkChangeMinor, R::LinkChangeMajor],
+                vec![R::Periodic, R::PortmapUpdated, R::LinkChangeMinor, R::LinkChangeMajor, R::RelayMapChange],
+            );
+            explore_states(ctx, &factory, &reasons, ctx.pick(14, 18));
+        }
+    }
+    rt.block_on(ep.close());
+    rt.shutdown_timeout(Duration::from_millis(200));
+}
+
 fn main() {
     vh_hooks::install();
     let ctx = Ctx::from_args("C25", Level::ModelChecking);
-    ctx.set_rule("every placement of one update request (thorough: also every pair of placements) relative to the finishing first run {before its report, after the report, after the done signal with the actor not yet / already reacted, after everything} x every order of {the actor's reaction to the done signal, the end of the run task}; each schedule on a fresh real endpoint; distinct = (placement, order, how the actor recorded the request) x whether a second run started");
-    ctx.assume("real-time current-thread runtime; the gates model a worker thread being preempted at these points on a multi-thread runtime; the only other source of runs is the 20-26 s periodic timer (a second Periodic request in the trace is a machinery error, never a pass)");
-    ctx.min_outcomes(ctx.pick(6, 12));
-    if let Some(c) = ctx.replay_case::<Case>() {
-        exec(&ctx, c);
+    ctx.set_rule("(1) real endpoint: every placement of one update request (thorough: also every pair of placements) relative to the finishing first run {before its report, after the report, after the done signal with the actor not yet / already reacted, after everything} x every order of {the actor's reaction to the done signal, the end of the run task}, plus the stale-done-signal schedules (a second trigger handled between the reporter release and the done signal of the first run; the request before it or while its run is in flight) x both orders; each schedule on a fresh real endpoint; distinct = (placement, order, how the actor recorded the requests) x whether a run started after the last request. (2) state level: every sequence of {request(reason), the run in flight releases the reporter, a finished run queues its done signal, the actor handles one done signal} over a real DirectAddrUpdateState, breadth-first to the depth bound, de-duplicated on (pending update, reporter lock, run in flight, outstanding done signals, unserved requests); distinct = (step kind and request strength, run in flight, outstanding done signals, unserved requests) x whether the step started a run");
+    ctx.assume("real endpoint: real-time current-thread runtime; the gates model a worker thread being preempted at these points on a multi-thread runtime; the only other source of runs is the 20-26 s periodic timer (a second Periodic request in the trace is a machinery error, never a pass)");
+    ctx.assume("state level: the actor is sequential (schedule_run and try_run never overlap); a run task is represented by its three visible steps (holds the reporter guard, releases it, queues the done signal) played by the harness; the net report itself is not run");
+    ctx.min_outcomes(ctx.pick(300, 600));
+    if let Some(c) = ctx.replay_case::<AnyCase>() {
+        match c {
+            AnyCase::History { history } => state_level(&ctx, Some(&history)),
+            AnyCase::Schedule(c) => exec(&ctx, c),
+        }
         ctx.finish();
     }
+    state_level(&ctx, None);
     let mut cases = Vec::new();
     let positions = [Pos::BeforeReport, Pos::AfterReport, Pos::AfterDoneActorNotReacted, Pos::AfterDoneActorReacted, Pos::AfterEverything];
     // the actor having reacted while the task has not ended *is* ActorFirst
@@ -263,15 +715,23 @@ fn main() {
     for (i, &p) in positions.iter().enumerate() {
         for o in [Order::ActorFirst, Order::TaskFirst] {
             if valid(p, o) {
-                cases.push(Case { request_at: p, order: o, also_at: None });
+                cases.push(Case { request_at: p, order: o, also_at: None, trigger: None });
             }
             if ctx.thorough() {
                 for &p2 in &positions[i + 1..] {
                     if valid(p, o) && valid(p2, o) {
-                        cases.push(Case { request_at: p, order: o, also_at: Some(p2) });
+                        cases.push(Case { request_at: p, order: o, also_at: Some(p2), trigger: None });
                     }
                 }
             }
+        }
+    }
+    // stale-done-signal schedules (both tiers)
+    for o in [Order::ActorFirst, Order::TaskFirst] {
+        cases.push(Case { request_at: Pos::AfterReport, order: o, also_at: None, trigger: Some(Trig::AfterRequest) });
+        cases.push(Case { request_at: Pos::AfterEverything, order: o, also_at: None, trigger: Some(Trig::BeforeRequest) });
+        if ctx.thorough() {
+            cases.push(Case { request_at: Pos::BeforeReport, order: o, also_at: None, trigger: Some(Trig::AfterRequest) });
         }
     }
     ctx.bound("schedules", cases.len());
